@@ -146,7 +146,9 @@ theorem C12_full_fails : ¬ C12_full := by
   decide
 
 theorem update_corner_fails : holds witUpdate (run witUpdate { root := [], items := [[]] }) = false := by decide
-theorem add_nopin_corner_fails : holds witAdd (run witAdd { root := [7], items := [[7]] }) = false := by decide
+/-- add?pin=false with the ill-typed Unpin argument (today's source: `typedUnpinNow = false`) -/
+theorem add_nopin_corner_fails :
+    holds witAdd (runWith Gen.C12.methods Gen.C12.routes false witAdd { root := [7], items := [[7]] }) = false := by decide
 theorem redirect_corner_fails : holds witRedirect (run witRedirect { root := [], items := [[]] }) = false := by decide
 
 /-- a non-trivial input outside the corners: POST /api/v0/pin/add/<arg>?type=direct -/
